@@ -46,6 +46,16 @@ def N4():
     ]
 
 
+def N6():
+    """user-given names that coincide with the default name of another, unnamed well (earlier and later in
+    row-major order), and with the default of a trough column"""
+    return [
+        plate("P", 2, 3, 0, 400, [[100, 50, 0], [100, 25, 100]], {"A01": "P.B02", "B03": "P.A02", "B01": "T.column_02"}),
+        plate("Q", 3, 2, 0, 300, 0),
+        trough("T", 3, 2, 20, 1000, [500, 300]),
+    ]
+
+
 def N5():
     """P and P2: replicates built from one and the same float64 array object"""
     a = [[100, 50, 0], [100, 25, 100]]
@@ -160,7 +170,7 @@ def ev_N3():
     return core, full
 
 
-SETS = {"N1": (N1, ev_N12), "N2": (N2, ev_N12), "N3": (N3, ev_N3), "N4": (N4, ev_N12), "N5": (N5, ev_N5)}
+SETS = {"N1": (N1, ev_N12), "N2": (N2, ev_N12), "N3": (N3, ev_N3), "N4": (N4, ev_N12), "N5": (N5, ev_N5), "N6": (N6, ev_N12)}
 
 
 def contents_by_name(spec, W):
